@@ -129,6 +129,7 @@ OVERRIDE_HEADS = [
     "Diag", "ConstantDiag", "Identity", "Kronecker", "KroneckerDiag", "KroneckerAddedDiag", "SumKronecker", "AddedDiag",
     "ConstantMul", "BlockDiag", "BlockInterleaved", "BatchRepeat", "Chol", "Root", "LowRankRoot", "Mul",
 ]
+BASE_CHOLESKY_HEADS = ("Dense", "Minimal", "Toeplitz", "Sum", "PsdSum", "Masked", "Interpolated", "Kernel", "SumBatch")  # no _cholesky override
 GENERIC_HEADS = [
     "Dense", "Minimal", "Toeplitz", "Kernel", "KeOps", "LowRankRootAddedDiag", "Sum", "PsdSum", "SumBatch", "Interpolated", "Interpolated", "Masked",
 ]
@@ -1046,6 +1047,7 @@ def run_case(case):
             except Exception as e:  # noqa: BLE001
                 err = e
             runs = _classify_runs(calls) if calls else None
+    jit_build = jit  # announced while the operator was constructed (nested root decompositions): part of every member's matrix
     jit += _jitter_sum(wrun)
     algs = state.algorithms(lines)
     for a in algs:
@@ -1161,7 +1163,14 @@ def run_case(case):
             if bool((off != 0).any()):
                 fail("tri", "value", "the %s factor has non-zero entries (max %.3g) in its strict %s triangle" % ("upper" if upper else "lower", float(off.abs().max()), "lower" if upper else "upper"))
             G = mT(F) @ F if upper else F @ mT(F)
-            within("recon", "R^T R = A" if upper else "L L^T = A", G, A, E + JS)
+            JSm = JS
+            if head in BASE_CHOLESKY_HEADS and torch.is_tensor(lmin) and lmin.numel() > 1 and JS > 0:
+                # one batched psd_safe_cholesky of the dense matrix: jitter goes ONLY to the members whose factorization
+                # failed; a member that is comfortably positive definite is factorized exactly, whatever its siblings need
+                comfortable = (lmin >= 1e4 * n * u * nrm * depth) & (lmin > 0)
+                JS_build = 1.001 * jit_build * (1.0 + mu) ** max(0, depth - 1)
+                JSm = torch.where(comfortable, torch.full_like(lmin, float(JS_build)), torch.full_like(lmin, float(JS)))
+            within("recon", "R^T R = A" if upper else "L L^T = A", G, A, E + JSm)
         # ------------------------------------------------------------------ roots
         elif opn == "root":
             Rr, Rm = parts[0]
